@@ -20,12 +20,14 @@
 EXTENDS Integers, Sequences, FiniteSets, TLC
 
 CONSTANTS Keys, MaxChanges, MaxFails, MaxOther, MaxRefresh, RoundSize, MinB, MaxB,
+          Batch,       \* TRUE: BatchOperations (the round's changes are collected, then DeleteBatch, then UpdateBatch)
           Variant      \* "fixed" | "dropRetry" (defect Q) | "staleRetry" (defect P) | "driftOrig" (defect R)
 
 VARIABLES obj, del, trev, nsid,      \* the table
           cur,                       \* reconciler cursor: changes up to this revision have been consumed
-          phase,                     \* "idle" | "changes" | "commit1" | "retries" | "commit2"
-          snap,                      \* the round's snapshot [obj, del, trev]
+          phase,                     \* "idle" | "changes" | "batch" | "commit1" | "retries" | "commit2"
+          snap,                      \* the round's snapshot [obj, del, trev] and, in batch mode, bq: the collected
+                                     \* changes still awaiting their batch operation
           results,                   \* k -> [ver, rev, sid, ok, other] of operations of this round
           retry,                     \* k -> [left, n, rev, orig, isdel, ver, other, queued] or absent
           target,                    \* k -> ver
@@ -45,7 +47,7 @@ Backoff(n) == Min2(MaxB, MinB * (2 ^ Min2(n, 4)))
 
 Init ==
     /\ obj = [k \in Keys |-> NoObj] /\ del = [k \in Keys |-> 0] /\ trev = 0 /\ nsid = 0
-    /\ cur = 0 /\ phase = "idle" /\ snap = [obj |-> obj, del |-> del, trev |-> 0]
+    /\ cur = 0 /\ phase = "idle" /\ snap = [obj |-> obj, del |-> del, trev |-> 0, bq |-> {}]
     /\ results = << >> /\ retry = << >> /\ target = << >> /\ nproc = 0
     /\ nchg = 0 /\ nfail = 0 /\ noth = 0 /\ nref = 0 /\ prog = [rev |-> 0, lw |-> 0] /\ attempted = << >> /\ first = << >>
 
@@ -97,7 +99,7 @@ RetryDue == \E k \in DOMAIN retry : retry[k].queued /\ retry[k].left = 0
 
 RoundStart ==
     /\ phase = "idle" /\ (Work \/ RetryDue)
-    /\ snap' = [obj |-> obj, del |-> del, trev |-> trev]
+    /\ snap' = [obj |-> obj, del |-> del, trev |-> trev, bq |-> {}]
     /\ phase' = "changes" /\ nproc' = 0 /\ results' = << >>
     /\ UNCHANGED << obj, del, trev, nsid, cur, retry, target, nchg, nfail, noth, nref, prog, attempted, first >>
 
@@ -143,7 +145,52 @@ ChangeOp(rs, ok) ==
                /\ results' = Put(results, k, [ver |-> snap.obj[k].ver, rev |-> c[2], sid |-> snap.obj[k].sid,
                                               ok |-> ok, other |-> snap.obj[k].other])
     /\ UNCHANGED << obj, del, trev, nsid, snap, nchg, noth, nref, prog, phase >>
-ProcessChange == ChangesEnd(RoundSize) \/ ChangeSkip(RoundSize) \/ \E ok \in Outcomes : ChangeOp(RoundSize, ok)
+
+\* Batch mode (incremental.batch): the changes of the round are collected first -- in revision order, objects that
+\* are not pending skipped, until the round is full; their retries are cleared -- then DeleteBatch is called with
+\* the deletions and UpdateBatch with the rest; each entry carries its own outcome.
+MinRev(P) == CHOOSE x \in P : \A y \in P : x[2] <= y[2]
+RECURSIVE Collect(_, _, _, _)
+Collect(P, room, taken, last) ==
+    IF P = {} \/ room = 0 THEN [taken |-> taken, last |-> last]
+    ELSE LET c == MinRev(P) IN
+         IF ~c[3] /\ snap.obj[c[1]].st \notin {"P", "R"} THEN Collect(P \ {c}, room, taken, c[2])
+         ELSE Collect(P \ {c}, room - 1, taken \cup {c}, c[2])
+BatchCollect(rs) ==
+    /\ phase = "changes" /\ Pending(snap, cur) # {} /\ nproc < rs
+    /\ LET r == Collect(Pending(snap, cur), rs - nproc, {}, cur) IN
+       /\ cur' = r.last
+       /\ nproc' = nproc + Cardinality(r.taken)
+       /\ retry' = [k \in (DOMAIN retry) \ { c[1] : c \in r.taken } |-> retry[k]]
+       /\ snap' = [snap EXCEPT !.bq = r.taken]
+    /\ phase' = "batch"
+    /\ UNCHANGED << obj, del, trev, nsid, nchg, noth, nref, prog, results, target, nfail, attempted, first >>
+BatchOp(c, ok) ==
+    /\ phase = "batch" /\ c \in snap.bq
+    /\ c[3] \/ ~\E d \in snap.bq : d[3]          \* the delete batch first
+    /\ LET k == c[1] IN
+       /\ nfail' = IF ok THEN nfail ELSE nfail + 1
+       /\ attempted' = Put(attempted, k, c[2])
+       /\ first' = Put(first, k, c[2])
+       /\ IF c[3]
+          THEN /\ target' = IF ok THEN Del(target, k) ELSE target
+               /\ retry' = IF ok THEN retry ELSE AddRetry(retry, k, c[2], c[2], TRUE, 0, 0)
+               /\ UNCHANGED results
+          ELSE /\ target' = IF ok THEN Put(target, k, snap.obj[k].ver) ELSE target
+               /\ UNCHANGED retry
+               /\ results' = Put(results, k, [ver |-> snap.obj[k].ver, rev |-> c[2], sid |-> snap.obj[k].sid,
+                                              ok |-> ok, other |-> snap.obj[k].other])
+    /\ snap' = [snap EXCEPT !.bq = @ \ {c}]
+    /\ UNCHANGED << obj, del, trev, nsid, nchg, noth, nref, prog, phase, cur, nproc >>
+BatchEnd ==
+    /\ phase = "batch" /\ snap.bq = {}
+    /\ phase' = "commit1"
+    /\ UNCHANGED << obj, del, trev, nsid, snap, nchg, noth, nref, prog, cur, results, retry, target, nproc, nfail, attempted, first >>
+
+ProcessChange ==
+    IF Batch THEN \/ ChangesEnd(RoundSize) \/ BatchCollect(RoundSize) \/ BatchEnd
+                  \/ \E c \in snap.bq, ok \in Outcomes : BatchOp(c, ok)
+    ELSE ChangesEnd(RoundSize) \/ ChangeSkip(RoundSize) \/ \E ok \in Outcomes : ChangeOp(RoundSize, ok)
 
 \* one write transaction commits all statuses of the round
 \* (the implementation ranges over a Go map: the results are written in any order, here `ord`)
